@@ -215,6 +215,7 @@ type JApp struct {
 	Phase          string   `json:"phase"` // idle|ready|ents|hs|sent|applied
 	AppendQ        []JMsg   `json:"appendQ"`
 	ApplyQ         []JMsg   `json:"applyQ"`
+	LocalQ         []JMsg   `json:"localQ"`
 	AppliedDurable uint64   `json:"appliedDurable"`
 	Inc            int      `json:"inc"`
 	LastConfIdx    uint64   `json:"lastConfIdx"` // index of the newest applied conf change (durable app state)
